@@ -199,7 +199,8 @@ def install(it):
 
     mm["sys"] = ModuleVal("sys", {"version_info": VersionInfo(), "exc_info": Builtin("exc_info", exc_info)})
     mm["errno"] = ModuleVal("errno", {n: getattr(_errno, n) for n in ("EADDRINUSE", "ENOENT", "EACCES")})
-    mm["socket"] = ModuleVal("socket", {"AF_INET": EnumMember(ClassVal("AddressFamily"), "AF_INET", 2), "AF_INET6": EnumMember(ClassVal("AddressFamily"), "AF_INET6", 10)})
+    af = ClassVal("AddressFamily")
+    mm["socket"] = ModuleVal("socket", {"AF_INET": EnumMember(af, "AF_INET", 2), "AF_INET6": EnumMember(af, "AF_INET6", 10)})
     st = {n: getattr(_stat, n) for n in ("S_IFREG", "S_IFDIR", "S_IFLNK")}
 
     def filemode(i, a, k):
